@@ -31,6 +31,11 @@ RECORDS = {'GroupInput': 0, 'GroupOutput': 0}
 GP = {'GroupPath': +1, 'GroupOutput': -1}
 
 
+def _fdc_names():
+    from .c02 import DELEG
+    return DELEG
+
+
 def check(ctx):
     P = ctx.P
     obs = []
@@ -180,7 +185,8 @@ def check(ctx):
         fn = _copy.copy(fn0)            # the body as the graph builder sees it (logic moved into the path object is read in place)
         fn.body = prepass(P, fn0)
         defs = single_defs(fn)
-        calls = [x for x in ast.walk(fn) if isinstance(x, ast.Call) and call_attr(x) == '_pass_part_downstream']
+        from .c02 import DELEG as _DELEG
+        calls = [x for x in ast.walk(fn) if isinstance(x, ast.Call) and call_attr(x) in _DELEG and call_attr(x) != 'give_part']
         o.count()
         pn = fn.args.args[1].arg
         good = False
@@ -248,7 +254,7 @@ def check(ctx):
             st = after
             a = n.ast
             if n.kind == 'stmt' and isinstance(a, ast.Assign) and len(a.targets) == 1 and isinstance(a.targets[0], ast.Name) and isinstance(a.value, ast.Call) \
-                    and call_attr(a.value) in ('give_part', '_pass_part_downstream') and not is_self_attr(a.value.func):
+                    and call_attr(a.value) in _fdc_names() and not is_self_attr(a.value.func):
                 st = st.with_flag(f'deleg:{n.frame.id}:{a.targets[0].id}')
             for cl in calls_at(g10, n):
                 if call_attr(cl) == 'pop' and isinstance(cl.func, ast.Attribute) and isinstance(cl.func.value, ast.Attribute) and cl.func.value.attr == '_group_pathing':
